@@ -192,6 +192,8 @@ def run(prog, chk):
                             ok = True
                             why = 'transferred to call sites'
                 chk.ob('R13.3', f, n.get('ln', f.ln), ok, '%s[%s]: %s' % (container, SX.show(n['i'])[:30], why), key='subscript:%s:%s' % (f.short, SX.show(n['i'])[:24]))
+    # the analyser's vector subscripts
+    chk.count('analyser vector subscripts', analyser_subscripts(prog, chk), 20)
     # lexer advance() call sites: known not at end
     for f in L.fns:
         g = prog.cfg(f)
@@ -572,6 +574,145 @@ def _no_write_between(g, edge, node, base):
             if w and SX.show(SX.strip(w[0])) == base:
                 return False
     return True
+
+
+def _size_lower_bound(ce, pol, V):
+    """least size of vector V that (ce, pol) implies, or None: `V.size() > k`, `>= k`, `== k`, `!V.empty()`, `k < V.size()` …"""
+    c = _peel(ce)
+    if SX.is_node(c) and c.get('k') == 'un' and c.get('op') == '!':
+        return _size_lower_bound(c['e'], not pol, V)
+    if SX.is_node(c) and c.get('k') == 'mcall' and SX.short(c.get('callee', '')) == 'empty' and SX.show(_peel(c.get('obj'))) == V:
+        return 1 if not pol else None
+    cp = SX.cmp_parts(c)
+    if not cp:
+        return None
+    op, l, r = cp
+    if not pol:
+        op = {'==': '!=', '!=': '==', '<': '>=', '>=': '<', '>': '<=', '<=': '>'}[op]
+    st = V + '.size()'
+    lt, rt = SX.show(_peel(l)), SX.show(_peel(r))
+    if rt == st:
+        op = {'<': '>', '>': '<', '<=': '>=', '>=': '<=', '==': '==', '!=': '!='}[op]
+        l, r, lt, rt = r, l, rt, lt
+    if lt != st:
+        return None
+    k = int_const(r)
+    if k is None:
+        return None
+    if op == '>':
+        return k + 1
+    if op in ('>=', '=='):
+        return k
+    if op == '!=' and k == 0:
+        return 1
+    return None
+
+
+def _same_size_fact(ce, pol, V, W):
+    """(ce, pol) implies V.size() == W.size()"""
+    cp = SX.cmp_parts(_peel(ce))
+    if not cp:
+        return False
+    op, l, r = cp
+    if not pol:
+        op = {'==': '!=', '!=': '=='}.get(op, op)
+    if op != '==':
+        return False
+    return {SX.show(_peel(l)), SX.show(_peel(r))} == {V + '.size()', W + '.size()'}
+
+
+def _filled_like(f, vref):
+    """local vector V (declared in f or in the function a closure f belongs to) is filled by exactly one push_back per iteration of
+    a full range-for over W and touched by nothing else (reserve aside) → text of W; else None"""
+    if not (SX.is_node(vref) and vref.get('k') == 'ref' and vref.get('id')):
+        return None
+    host = f
+    while host is not None:
+        decl = [d for d in SX.walk(host.body, into_lambdas=False) if d['k'] == 'var' and d.get('id') == vref['id']]
+        if decl:
+            break
+        host = getattr(host, 'parent', None)
+    if host is None:
+        return None
+    i0 = SX.strip(decl[0].get('init')) if SX.is_node(decl[0].get('init')) else None
+    if SX.is_node(i0) and not (i0.get('k') in ('construct', 'initlist') and not (SX.real_args(i0) if i0['k'] == 'construct' else i0.get('items'))):
+        return None          # must start empty
+    fills, other = [], 0
+    for lp in SX.walk(host.body, into_lambdas=False):
+        if lp['k'] != 'forrange':
+            continue
+        st = lp['body']['body'] if lp['body'].get('k') == 'block' else [lp['body']]
+        if len(st) == 1 and st[0].get('k') == 'expr':
+            e = SX.strip(st[0]['e'])
+            if SX.is_node(e) and e.get('k') == 'mcall' and SX.short(e.get('callee', '')) in ('push_back', 'emplace_back') and _peel(e.get('obj')).get('id') == vref['id']:
+                fills.append((lp, e))
+    for n in SX.walk(host.body, into_lambdas=True):
+        if n['k'] == 'mcall' and not n.get('constm', True) and SX.is_node(_peel(n.get('obj'))) and _peel(n['obj']).get('id') == vref['id']:
+            if SX.short(n['callee']) == 'reserve' or any(n is e for _, e in fills):
+                continue
+            if SX.short(n['callee']) in ('operator[]', 'at', 'begin', 'end', 'front', 'back', 'data'):
+                continue
+            other += 1
+        w = SX.write_target(n)
+        if w and SX.is_node(_peel(w[0])) and _peel(w[0]).get('id') == vref['id']:
+            other += 1
+    if len(fills) == 1 and not other:
+        return SX.show(_peel(fills[0][0]['range']))
+    return None
+
+
+def analyser_subscripts(prog, chk):
+    """R13.3 for the semantic analyser: every subscript of a std::vector is known to be in range where it is evaluated — by a
+    dominating test `i < v.size()` on the same vector, by the bound of the enclosing counted loop (on the same vector, or on a
+    vector a dominating test makes equally long), or, for a constant index, by a dominating size test."""
+    n = 0
+    for f in prog.functions:
+        if not f.body or not f.file.endswith('semantic_analyser.cpp'):
+            continue
+        subs = [x for x in SX.walk(f.body, into_lambdas=False) if x['k'] == 'index' and (x.get('bt') or '').replace('const ', '').startswith('std::vector<')]
+        if not subs:
+            continue
+        g = prog.cfg(f)
+        for x in subs:
+            n += 1
+            V = SX.show(_peel(x['base']))
+            node = _cfg_node_containing(g, x)
+            ok, why = False, 'no dominating range test on %s' % V
+            if node is not None:
+                gs = list(g.guards(node))
+                k = int_const(x['i'])
+                if k is not None:
+                    for ce, pol, ed in gs:
+                        lb = _size_lower_bound(ce, pol, V)
+                        if lb is not None and lb > k:
+                            ok, why = True, 'dominated by %s (%s)' % (SX.show(ce)[:50], pol)
+                            break
+                else:
+                    base, off = _lin(x['i'])
+                    if base is not None and off >= 0:
+                        for ce, pol, ed in gs:
+                            r_ = _bound_test(ce, pol, base, V)
+                            if r_ is not None and r_ >= off and _no_write_between(g, ed, node, base):
+                                ok, why = True, 'dominated by %s (%s)' % (SX.show(ce)[:50], pol)
+                                break
+                        if not ok:
+                            # bounded on another vector W that a dominating test makes as long as V
+                            for ce, pol, ed in gs:
+                                cp = SX.cmp_parts(ce)
+                                if not cp:
+                                    continue
+                                for side in (cp[1], cp[2]):
+                                    s_ = _peel(side)
+                                    if SX.is_node(s_) and s_.get('k') == 'mcall' and SX.short(s_.get('callee', '')) == 'size':
+                                        W = SX.show(_peel(s_.get('obj')))
+                                        r_ = _bound_test(ce, pol, base, W)
+                                        if r_ is not None and r_ >= off and W != V and _no_write_between(g, ed, node, base):
+                                            if any(_same_size_fact(c2, p2, V, W) for c2, p2, e2 in gs):
+                                                ok, why = True, 'bounded by %s.size(), and %s.size() == %s.size() holds here' % (W, V, W)
+                                            elif _filled_like(f, _peel(x['base'])) == W:
+                                                ok, why = True, 'bounded by %s.size(); %s holds one element per element of %s (filled by one push per iteration of a full loop over it)' % (W, V, W)
+            chk.ob('R13.3', f, x.get('ln', f.ln), ok, 'analyser subscript %s: %s' % (SX.show(x)[:40], why), key='an-subscript:%s:%s' % (f.short, SX.show(x)[:30]))
+    return n
 
 
 def _config_members(prog, rec):
